@@ -14,7 +14,7 @@ from mc.ref import cea608 as C
 ID = "C06"
 LEVEL = "model_checking"
 RULE = (
-    "programs = base timecode x drop/non-drop x single/doubled codes x offset x filler-word count x boundary shape^2 x final "
+    "programs = base timecode x drop/non-drop x single/doubled codes x offset x filler-word count x boundary shape^2 x final shape x {one row, two non-adjacent rows per caption} "
     "shape; model = exact-arithmetic frame clock + displayed-cue state machine; states = distinct (clock-independent) model "
     "states, transitions = words fed, traces = programs replayed on the real reader. non-trivial = every program (3 captions)"
 )
@@ -48,7 +48,7 @@ def tc(frames_total, sep):
     return f"{s // 3600:02d}:{(s // 60) % 60:02d}:{s % 60:02d}{sep}{ff:02d}"
 
 
-def build(base, sep, doubled, fillers, b1, b2, final):
+def build(base, sep, doubled, fillers, b1, b2, final, tworows=False):
     """-> list of lines: (frames_total, [words])"""
     d = 2 if doubled else 1
     t0 = ((base[0] * 60 + base[1]) * 60 + base[2]) * 30 + base[3]
@@ -57,7 +57,11 @@ def build(base, sep, doubled, fillers, b1, b2, final):
     bnds = [None, b1, b2]
     texts = ["Ab", "bA", "AA"]
     for i in range(3):
-        load = [C.ENM] * d + [C.RCL] * d + [C.pac(15 - i, 0)] * d + C.text_words(texts[i]) + [C.chars("b", "b")] * fillers[i]
+        load = [C.ENM] * d + [C.RCL] * d
+        if tworows:
+            # a second, non-adjacent row: the caption comes out as two captions sharing its times
+            load += [C.pac(1 + i, 0)] * d + C.text_words("Up")
+        load += [C.pac(15 - i, 0)] * d + C.text_words(texts[i]) + [C.chars("b", "b")] * fillers[i]
         b = bnds[i]
         if b is None or b == "none":
             lines.append((cur, load + [C.EOC] * d))
@@ -82,7 +86,7 @@ def build(base, sep, doubled, fillers, b1, b2, final):
     return lines
 
 
-def simulate(lines, sep, offset_s):
+def simulate(lines, sep, offset_s, copies=1):
     """Model: exact transmission clock and displayed-cue state machine. -> (cues [(start, end)], error_expected, dontcare, states)"""
     k = Fraction(1001, 1000) if sep == ":" else Fraction(1)
     off = Fraction(offset_s) * 1000000
@@ -128,6 +132,7 @@ def simulate(lines, sep, offset_s):
         dontcare = True  # an end floored to zero is read as "never ended"
     err = any(e is not None and 0 < e - s < 50000 for s, e in out)
     out = [(s, e if e is not None else s + 4000000) for s, e in out]
+    out = [c for c in out for _ in range(copies)]
     return out, err, dontcare, states, trans
 
 
@@ -143,9 +148,10 @@ def evaluate(case):
     from pycaption import SCCReader
     from pycaption.exceptions import CaptionReadTimingError
 
-    base, sep, doubled, fillers, b1, b2, final, offset = case
-    lines = build(base, sep, doubled, fillers, b1, b2, final)
-    exp, err, dontcare, states, trans = simulate(lines, sep, offset)
+    base, sep, doubled, fillers, b1, b2, final, offset = case[:8]
+    tworows = bool(case[8]) if len(case) > 8 else False
+    lines = build(base, sep, doubled, fillers, b1, b2, final, tworows)
+    exp, err, dontcare, states, trans = simulate(lines, sep, offset, 2 if tworows else 1)
     if dontcare:
         return None, states, trans, "dontcare"
     doc = doc_of(lines, sep)
@@ -212,7 +218,8 @@ def run_shard(d):
             for b1 in BOUNDARY:
                 for b2 in BOUNDARY:
                     for final in FINAL:
-                        case = (base, d["sep"], d["doubled"], fillers, b1, b2, final, offset)
+                      for tworows in ((False, True) if fillers in fill_sets[:2] else (False,)):
+                        case = (base, d["sep"], d["doubled"], fillers, b1, b2, final, offset, tworows)
                         v, states, trans, outcome = evaluate(case)
                         allstates.update(states)
                         acc.transitions += trans
@@ -220,9 +227,9 @@ def run_shard(d):
                             acc.count("dont_care_programs")
                             continue
                         acc.traces += 1
-                        acc.case(case, True, outcome, {"base_timecode": base, "separator": d["sep"], "doubled": d["doubled"], "filler_words": fillers, "boundaries": [b1, b2], "final": final, "offset_s": offset})
+                        acc.case(case, True, outcome, {"base_timecode": base, "separator": d["sep"], "doubled": d["doubled"], "filler_words": fillers, "boundaries": [b1, b2], "final": final, "offset_s": offset, "two_non_adjacent_rows_per_caption": tworows})
                         for sig, det in v:
-                            acc.violation(sig, {"case": list(case)}, det)
+                            acc.violation(sig + ("/two-rows" if tworows else ""), {"case": list(case)}, det)
     res = acc.result()
     res["extra"] = {"state_hashes": sorted(allstates)}
     return res
@@ -238,6 +245,7 @@ def finish(agg, tier, seed):
 
 def replay(case):
     c = case["case"]
-    c = (tuple(c[0]), c[1], c[2], tuple(c[3]), c[4], c[5], c[6], c[7])
+    tw = bool(c[8]) if len(c) > 8 else False
+    c = (tuple(c[0]), c[1], c[2], tuple(c[3]), c[4], c[5], c[6], c[7], tw)
     v, _, _, _ = evaluate(c)
-    return [{"sig": s, "detail": d} for s, d in (v or [])]
+    return [{"sig": s + ("/two-rows" if tw else ""), "detail": d} for s, d in (v or [])]
